@@ -177,6 +177,37 @@ pub fn c02(a: &Args) -> CaseSet {
         let pick = [i % 7, (i / 7 + 2) % 7, (i + 4) % 7];
         for k in pick { add_expect(&mut cs, &tb, progs[k].clone(), vec![Query::Vars, Query::Eval(nv), Query::Unparse], text.clone(), "literal-rich-tree", n_operands(&ch), &want, &vars); }
     }
+    // long levels with folds: more than 64 operators before folding, literal products at the front, at the back and at
+    // random places (operator indices 64 apart, one folded and one not)
+    {
+        let tb = std_tables()[0].clone();
+        let plus = (0..tb.len()).find(|k| tb[*k].repr == "+").unwrap(); let mul = (0..tb.len()).find(|k| tb[*k].repr == "*").unwrap();
+        let reps = if a.thorough { 6 } else { 2 };
+        for rep in 0..reps {
+            for &nvars in &[61usize, 63, 64, 66, 70, 100, 127, 130] {
+                for place in 0..4 {
+                    // items: variables v000.. and literal products
+                    let mut items: Vec<Vec<Atom>> = (0..nvars).map(|i| vec![Atom::Var(format!("v{i:03}"))]).collect();
+                    let prod = |k: usize| -> Vec<Atom> { (0..(2 + k % 2)).map(|j| Atom::Lit(format!("{}", 2 + (j + k) % 5))).collect() };
+                    match place {
+                        0 => items.insert(0, prod(rep)),
+                        1 => items.push(prod(rep + 1)),
+                        2 => { items.insert(0, prod(rep)); items.push(prod(rep + 1)) }
+                        _ => { for q in 0..3 { let pos = r.below(items.len() + 1); items.insert(pos, prod(rep + q)) } }
+                    }
+                    let mut flat: Vec<(usize, Atom)> = vec![];
+                    for (ii, it) in items.iter().enumerate() { for (jj, at) in it.iter().enumerate() { flat.push((if jj == 0 { plus } else { mul }, at.clone())); let _ = ii; } }
+                    let first = flat.remove(0).1;
+                    let ch = Chain { first: Box::new(first), rest: flat };
+                    let text = render(&ch, &tb, &mut r, &RenderCfg::plain());
+                    let vars = sorted_vars(&ch); let want = ref_chain(&ch, &tb, &vars); let nv = vars.len();
+                    for p in [Prog::Flat(text.clone()), Prog::Compile(Box::new(Prog::Compile(Box::new(Prog::FlatWo(text.clone()))))), Prog::Deep(text.clone())] {
+                        add_expect(&mut cs, &tb, p, vec![Query::Vars, Query::Eval(nv)], format!("{} operands, literal products placed {place}", n_operands(&ch)), "long-level-with-folds", n_operands(&ch), &want, &vars);
+                    }
+                }
+            }
+        }
+    }
     cs
 }
 
@@ -222,6 +253,35 @@ pub fn c03(a: &Args) -> CaseSet {
         for p in [Prog::Deep(text.clone()), Prog::ToFlat(Box::new(Prog::Deep(text.clone()))), Prog::Flat(text.clone()), Prog::ToDeep(Box::new(Prog::FlatWo(text.clone())))] {
             add_expect(&mut cs, &tb, p, vec![Query::Vars, Query::Eval(nv)], text.clone(), "long-level", m + 1, &want, &vars);
         }
+    }
+    // a unary operator over a group that ends `... o T o literal`, o flagged commutative, T ending in a literal bound by a
+    // tighter operator: deep parse, then conversions (where the unary operators of a level are re-attached)
+    for ti in 0..2 {
+        let tb = std_tables()[if ti == 0 { 0 } else { 1 }].clone();
+        let uns: Vec<usize> = (0..tb.len()).filter(|k| tb[*k].unary).take(3).collect();
+        let comm: Vec<usize> = (0..tb.len()).filter(|k| tb[*k].bin.map(|b| b.1).unwrap_or(false) && !is_alpha_name(&tb[*k].repr)).collect();
+        for &u in &uns { for &o in &comm {
+            let po = tb[o].bin.unwrap().0;
+            let tight: Vec<usize> = (0..tb.len()).filter(|k| tb[*k].bin.map(|b| b.0 > po).unwrap_or(false) && !is_alpha_name(&tb[*k].repr)).take(3).collect();
+            for &h in &tight {
+                let v = |n: &str| Atom::Var(n.to_string()); let l = |n: &str| Atom::Lit(n.to_string());
+                let shapes: Vec<Vec<(usize, Atom)>> = vec![
+                    vec![(o, v("y")), (h, l("2")), (o, l("3"))],
+                    vec![(h, l("2")), (o, v("y")), (h, l("2")), (o, l("1"))],
+                    vec![(o, v("y")), (h, l("2")), (o, v("z")), (h, l("3")), (o, l("4"))],
+                    vec![(o, l("5")), (h, l("2")), (o, l("3"))],
+                ];
+                for rest in shapes {
+                    let inner = Chain { first: Box::new(v("x")), rest };
+                    let ch = Chain { first: Box::new(Atom::Group(vec![u], inner)), rest: vec![] };
+                    let text = render(&ch, &tb, &mut r, &RenderCfg::plain());
+                    let vars = sorted_vars(&ch); let want = ref_chain(&ch, &tb, &vars); let nv = vars.len();
+                    for p in [Prog::ToFlat(Box::new(Prog::Deep(text.clone()))), Prog::ToDeep(Box::new(Prog::ToFlat(Box::new(Prog::Deep(text.clone()))))), Prog::Deep(text.clone()), Prog::Flat(text.clone())] {
+                        add_expect(&mut cs, &tb, p, vec![Query::Vars, Query::Eval(nv)], text.clone(), "unary-over-group-ending-in-literal", n_operands(&ch), &want, &vars);
+                    }
+                }
+            }
+        } }
     }
     // sloppy strings: only the agreement of the two parsers is the oracle
     for i in 0..a.n {
@@ -426,6 +486,40 @@ pub fn c10(a: &Args) -> CaseSet {
             cs.add(&tb, p, vec![Query::Vars], "unknown unary name".into(), "unknown-name", 2, |obs| (Some(obs[0] == Obs::E), pretty_obs(&obs[0])));
             let p = Prog::Bin("§§".into(), Box::new(pool[0].1.clone()), Box::new(pool[1].1.clone()));
             cs.add(&tb, p, vec![Query::Vars], "unknown binary name".into(), "unknown-name", 2, |obs| (Some(obs[0] == Obs::E), pretty_obs(&obs[0])));
+        }
+    }
+    // stacks of unary applications: every sequence of three applications over three unary operators (with repetitions at
+    // distance one and two) on a leaf, on a sum and on texts that already carry unary operators, deep and flat
+    {
+        let tb = float_table();
+        let uns: Vec<usize> = ["abs", "sin", "floor"].iter().filter_map(|n| (0..tb.len()).find(|k| tb[*k].repr == *n && tb[*k].unary)).collect();
+        if uns.len() == 3 {
+            let u0 = tb[uns[0]].repr.clone(); let u1 = tb[uns[1]].repr.clone();
+            let texts = vec!["x".to_string(), "x+y".to_string(), format!("{u0}({u1}(x))"), format!("{u1}({u0}(x+y))")];
+            for text in texts {
+                // the reference chain of the text: through the flat unfolded parse of the implementation-independent generator is not
+                // available for a fixed text, so the chain is built by hand
+                let base_chain: Chain = match text.as_str() {
+                    "x" => Chain { first: Box::new(Atom::Var("x".into())), rest: vec![] },
+                    "x+y" => { let plus = (0..tb.len()).find(|k| tb[*k].repr == "+").unwrap(); Chain { first: Box::new(Atom::Var("x".into())), rest: vec![(plus, Atom::Var("y".into()))] } },
+                    t if t.ends_with("(x))") => Chain { first: Box::new(Atom::Group(vec![uns[0]], Chain { first: Box::new(Atom::Group(vec![uns[1]], Chain { first: Box::new(Atom::Var("x".into())), rest: vec![] })), rest: vec![] })), rest: vec![] },
+                    _ => { let plus = (0..tb.len()).find(|k| tb[*k].repr == "+").unwrap();
+                           Chain { first: Box::new(Atom::Group(vec![uns[1]], Chain { first: Box::new(Atom::Group(vec![uns[0]], Chain { first: Box::new(Atom::Var("x".into())), rest: vec![(plus, Atom::Var("y".into()))] })), rest: vec![] })), rest: vec![] } }
+                };
+                for form in 0..3 {
+                    for a1 in 0..3 { for a2 in 0..3 { for a3 in 0..3 {
+                        let mut ch = base_chain.clone();
+                        let mut prog = match form { 0 => Prog::Deep(text.clone()), 1 => Prog::Flat(text.clone()), _ => Prog::FlatWo(text.clone()) };
+                        for ai in [a1, a2, a3] {
+                            let op = uns[ai];
+                            ch = Chain { first: Box::new(Atom::Group(vec![op], ch)), rest: vec![] };
+                            prog = Prog::Un(tb[op].repr.clone(), Box::new(prog));
+                        }
+                        let vars = sorted_vars(&ch); let want = ref_chain(&ch, &tb, &vars); let nv = vars.len();
+                        add_expect(&mut cs, &tb, prog, vec![Query::Vars, Query::Eval(nv)], format!("three unary applications on {text}"), "unary-stack", n_operands(&ch), &want, &vars);
+                    } } }
+                }
+            }
         }
     }
     cs
